@@ -23,7 +23,10 @@ func (s *PFCPSession) CreateQER(q qer) {
 func (s *PFCPSession) UpdateQER(q qer) error {
 	for idx, v := range s.qers {
 		if v.qerID == q.qerID {
+			// an update changes the QER's parameters, not the role it was given in the session
+			q.qosLevel = v.qosLevel
 			s.qers[idx] = q
+
 			return nil
 		}
 	}
@@ -115,6 +118,15 @@ func (s *PFCPSession) MarkSessionQer(qers []qer) {
 
 	for idx, qer := range qers {
 		if contains(sessQerIDList, qer.qerID) {
+			// the limiter chosen earlier stays the limiter: its entries are programmed under that role
+			if qer.qosLevel == SessionQos {
+				found = true
+				sessionIdx = idx
+				sessQerID = qer.qerID
+
+				break
+			}
+
 			if qer.ulGbr > 0 || qer.dlGbr > 0 {
 				logger.InitLog.Infoln("do not consider qer with non zero gbr value for session qer")
 				continue
